@@ -67,11 +67,19 @@ func c01Verify(der []byte, roots string, name string, ku []x509.ExtKeyUsage) boo
 }
 
 func c01AddCase(out *emit.Out, scenario string, in c01Input) {
-	pk := tk.GetPKI()
 	reg := tk.NewRegistry()
-	var cr, sr tk.EPResult
-	var hung bool
-	echo := true
+	cr, sr, hung, echo := c01Connect(scenario, in, reg)
+	c01Emit(out, scenario, in, cr, sr, hung, echo)
+	// with a session cache on both sides the same pair connects again: an abbreviated handshake
+	// when the library offers one, held to the same agreement clauses
+	if in.C.Cache != "" && in.S.Cache != "" && cr.Err == "" && sr.Err == "" && !hung {
+		cr2, sr2, hung2, echo2 := c01Connect(scenario, in, reg)
+		c01Emit(out, scenario+"-second-connection", in, cr2, sr2, hung2, echo2)
+	}
+}
+
+func c01Connect(scenario string, in c01Input, reg *tk.Registry) (cr, sr tk.EPResult, hung, echo bool) {
+	echo = true
 	payloadC, payloadS := []byte("from client: "+scenario), bytes.Repeat([]byte("S"), 3000)
 	if in.Stack == "tlcp" {
 		tp := tk.NewTPair(tk.BuildTLCP(in.C, reg), tk.BuildTLCP(in.S, reg))
@@ -143,6 +151,11 @@ func c01AddCase(out *emit.Out, scenario string, in c01Input) {
 			echo = bytes.Equal(gotC, payloadS) && bytes.Equal(gotS, payloadC)
 		}
 	}
+	return
+}
+
+func c01Emit(out *emit.Out, scenario string, in c01Input, cr, sr tk.EPResult, hung, echo bool) {
+	pk := tk.GetPKI()
 	direct := ""
 	if cr.Panic != "" || sr.Panic != "" {
 		direct = "panic: " + cr.Panic + sr.Panic
@@ -280,6 +293,9 @@ func runC01(p params) error {
 		if r.IntN(3) == 0 {
 			c.Cache, s.Cache = "c", "s"
 		}
+		// where the key pairs come from: the Certificates list, the Get* callbacks, or one of each
+		c.CertVia = []string{"", "", "cb", "mixed"}[r.IntN(4)]
+		s.CertVia = []string{"", "", "cb", "mixed"}[r.IntN(4)]
 		if r.IntN(14) == 0 {
 			c.MaxVersion = []uint16{0x0100, 0x0101, 0x0303}[r.IntN(3)]
 		}
@@ -294,6 +310,19 @@ func runC01(p params) error {
 			c01AddCase(out, "baseline", c01Input{Stack: st, C: tk.EPConfig{Suites: []uint16{su}, Ident: "cli", ServerName: "server.test", PMTU: 4000}, S: tk.EPConfig{Ident: "srv", PMTU: 4000}})
 		}
 		c01AddCase(out, "baseline", c01Input{Stack: st, C: tk.EPConfig{ServerName: "server.test", PMTU: 4000}, S: tk.EPConfig{Ident: "srv", PMTU: 4000}})
+	}
+	// key pairs by list, by callbacks and mixed, where having both client pairs decides the offer (ECDHE only),
+	// with a session cache so that the pair also connects a second time
+	for _, st := range []string{"tlcp", "dtlcp"} {
+		for _, via := range []string{"", "cb", "mixed"} {
+			for _, su := range []uint16{0xe051, 0xe011} {
+				for _, id := range []string{"cli", "cli-sig"} {
+					c01AddCase(out, "key-pair-sources", c01Input{Stack: st,
+						C: tk.EPConfig{Suites: []uint16{su}, Ident: id, CertVia: via, ServerName: "server.test", PMTU: 4000, Cache: "c", ALPN: []string{"http/1.1", "h2"}},
+						S: tk.EPConfig{Ident: "srv", CertVia: via, Auth: 4, PMTU: 4000, Cache: "s", ALPN: []string{"h2", "http/1.1"}}})
+				}
+			}
+		}
 	}
 	for i := 0; i < n; i++ {
 		c01AddCase(out, "random-pair", gen(i))
